@@ -32,7 +32,7 @@ func (p *propC10) Assumptions() []string {
 	}
 }
 func (p *propC10) ProbeNames() []string {
-	return []string{"greedy read at frame end", "frame end on a 4096 multiple", "crc-only path with > 32 KiB data", "stutter consumed", "chain of >= 2 frames", "tail: valid file behind frame", "eof delivered with data"}
+	return []string{"greedy read at frame end", "one call per file on the same reader", "frame end on a 4096 multiple", "crc-only path with > 32 KiB data", "stutter consumed", "chain of >= 2 frames", "tail: valid file behind frame", "eof delivered with data"}
 }
 
 // padFrameTo appends an unknown-message filler so that the data size becomes target.
@@ -179,6 +179,17 @@ func (p *propC10) Gen(idx int) *Scenario {
 	for i := 0; i < nfr; i++ {
 		sc.Tasks = append(sc.Tasks, Task{ID: id, Call: "Decode", In: fmt.Sprintf("f%d", i), Read: planFull()})
 		id++
+	}
+	// one call per file on the same reader ("consumes exactly the frame" is what
+	// lets a caller walk a concatenation file by file): seeded plan, and a
+	// seekable standard-library reader, whose position is not 0 from the second call on
+	if nfr >= 2 && nfr <= 6 {
+		for _, c := range []string{"Decode", "CheckIntegrity"} {
+			sc.Tasks = append(sc.Tasks, Task{ID: id, Call: c, In: "m0", Read: plan, Seq: nfr})
+			id++
+			sc.Tasks = append(sc.Tasks, Task{ID: id, Call: c, In: "m0", Read: ReadPlan{Native: []string{"bytes", "bufio"}[r.Intn(2)]}, Seq: nfr})
+			id++
+		}
 	}
 	return sc
 }
@@ -355,6 +366,44 @@ func (p *propC10) Check(sc *Scenario, st *Stats) []Violation {
 			}
 			if findLine(dh.Dump, "FileId=") != findLine(dec.Dump, "FileId=") {
 				bad("DecodeHeaderAndFileID/fileid-differs-from-Decode", "%s vs %s", findLine(dh.Dump, "FileId="), findLine(dec.Dump, "FileId="))
+			}
+		}
+	}
+	// file-by-file calls on one reader
+	for ti := len(c10Calls)*2 + nfr; ti < len(sc.Tasks); ti++ {
+		t := &sc.Tasks[ti]
+		r := byID[t.ID]
+		if r == nil || t.Seq < 2 {
+			continue
+		}
+		pc := planClass(t.Read)
+		st.Probe("one call per file on the same reader")
+		st.Key(t.Call, "per-file-calls", pc, "")
+		if r.Panic != "" {
+			bad(t.Call+"/panic", "%s panicked (call %d on the same reader): %s", t.Call, len(r.SeqPos)+1, r.Panic)
+			continue
+		}
+		for i, pos := range r.SeqPos {
+			if i >= nfr {
+				break
+			}
+			last := i == len(r.SeqPos)-1
+			if last && r.ErrClass != "nil" {
+				bad(t.Call+"/per-file-calls/rejects-valid/"+pc, "call %d of %d on the same reader (file starts at offset %d): %s failed on a valid frame: %s", i+1, nfr, frames[i].Start, t.Call, r.Err)
+				break
+			}
+			if pos != frames[i].End {
+				bad(t.Call+"/per-file-calls/position/"+pc, "after call %d of %d on the same reader %s has consumed %d bytes, file %d ends at %d", i+1, nfr, t.Call, pos, i+1, frames[i].End)
+				break
+			}
+			if t.Call == "Decode" && i < len(r.Dumps) {
+				alone := byID[len(c10Calls)*2+i]
+				if alone != nil && alone.ErrClass == "nil" {
+					if d := firstDiff(r.Dumps[i], alone.Dump); d != "" {
+						bad("Decode/per-file-calls/file-differs-from-alone/"+pc, "file #%d decoded by the %d-th call on one reader differs from decoding it alone: %s", i+1, i+1, d)
+						break
+					}
+				}
 			}
 		}
 	}
